@@ -133,6 +133,23 @@ def run(tier):
         p = os.path.join(gdir, 'm%d.c' % i)
         common.write(p, mutate.mutate(rng.choice(pool), rng, rng.choice(pool)))
         inputs.append(('mut:%d' % i, p))
+    # literals: random strings and character constants of every prefix, ill-formed and boundary UTF-8 (each decoder/encoder path of both stages)
+    from . import c14
+    lr = random.Random(rng.getrandbits(48))
+    for i in range(300 if tier == 'quick' else 6000):
+        d, want = (c14.gen_string if lr.random() < 0.5 else c14.gen_charconst)(lr, i, 'x86_64-sysv')
+        p = os.path.join(gdir, 'lit%d.c' % i)
+        common.write(p, d.text.encode('latin-1', 'replace') + b'\n')
+        inputs.append(('lit:%d' % i, p))
+    seqs = [b for _, b, _ in c14.INVALID] + [b'\xf4\x8f\xbf\xbf', b'\xf4\x90\x80\x80', b'\xf4\x90\x80\x81', b'\xed\x9f\xbf', b'\xee\x80\x80', b'\xef\xbf\xbf', b'\xf0\x90\x80\x80', b'\xc2\x80', b'\xdf\xbf', b'\xe0\xa0\x80', b'\xe2\x82\xac', b'\xc3\xa9']
+    for i, q in enumerate(seqs):
+        for j, pfx in enumerate((b'', b'u8', b'u', b'U', b'L')):
+            p = os.path.join(gdir, 'u8_%d_%d.c' % (i, j))
+            common.write(p, b'void *p = ' + pfx + b'"x' + q + b'y";\n')
+            inputs.append(('utf8:%d:%d' % (i, j), p))
+            p = os.path.join(gdir, 'u8c_%d_%d.c' % (i, j))
+            common.write(p, b'int c = ' + pfx + b"'" + q + b"';\n")
+            inputs.append(('utf8c:%d:%d' % (i, j), p))
     from . import c19
     for name, text in c19.trap_inputs():
         p = os.path.join(gdir, name + '.c')
